@@ -494,6 +494,10 @@ class FitBase(FileIOMixin, object):
             raise ValueError("Fit data and cost function are not compatible: %s" % _reason)
         self._set_new_parametric_model()
         self._param_model._on_error_change_callback = self._on_error_change
+        # the model values may depend on the data (e.g. the number of entries of a histogram)
+        _model_node = self._nexus.get(self._MODEL_NAME)
+        if _model_node is not None:
+            _model_node.mark_for_update()
         # the new data container may carry its own uncertainty sources (or none at all)
         if self._data_container.has_errors:
             self._on_error_change()
